@@ -1663,8 +1663,9 @@ def check_C20(tier, seed):
 
 def sys_path_gen():
     import sys
-    if "/verif/gen" not in sys.path:
-        sys.path.insert(0, "/verif/gen")
+    g = os.path.join(C.VERIF, "gen")
+    if g not in sys.path:
+        sys.path.insert(0, g)
 
 
 # ---------------------------------------------------------------------------
